@@ -787,10 +787,10 @@ Definition splitter_block (w : world) (p : nat) : world * yld :=
   end.
 
 (* Combiner.behaviour *)
+(* the worker slot is requested first (pc 5 continues once it is granted), as in Machine.behaviour *)
 Definition combiner_head (w : world) (p n : nat) : world * yld :=
   let w := check_state w n in
-  let '(w, t) := e_reserve_get w (hd 0%nat (nins (get_node w n))) p in
-  (setpc (upd_proc w p (fun x => x <| paux := t |>)) p 2, YEvent t).
+  sc_request w p n 5.
 
 (* reserve qty tokens on every ingredient edge *)
 Fixpoint comb_rep (e p k : nat) (j : nat) (a : world * list nat * list nat) : world * list nat * list nat :=
@@ -823,7 +823,10 @@ Definition combiner_loop (w : world) (p n : nat) : world * yld :=
   | [] =>
       let '(w, d) := draw_delay w n in
       if d <? 0 then (crashw w (CAssert 130), YDone) else
-      sc_request (upd_proc w p (fun x => x <| pdl := d |>)) p n 5
+      let w := upd_proc w p (fun x => x <| pdl := d |>) in
+      let w := update_state w n 2 in
+      let w := upd_proc w p (fun x => x <| pt0 := wnow w |>) in
+      let '(w, t) := w_timeout w d in (setpc w p 6, YEvent t)
   | toks =>
       if any_triggered w toks then (setpc w p 4, YEvent (Z.to_nat (pt1 pr)))
       else let '(w, c) := w_any_of w toks in
@@ -878,9 +881,8 @@ Definition combiner_block (w : world) (p : nat) : world * yld :=
       end
   | 5%nat =>
       let w := occupancy w n true in
-      let w := update_state w n 2 in
-      let w := upd_proc w p (fun x => x <| pt0 := wnow w |>) in
-      let '(w, t) := w_timeout w (pdl pr) in (setpc w p 6, YEvent t)
+      let '(w, t) := e_reserve_get w (hd 0%nat (nins nd)) p in
+      (setpc (upd_proc w p (fun x => x <| paux := t |>)) p 2, YEvent t)
   | _ =>
       let w := upd_node w n (fun x => x <| nsumproc ::= fun v => v + (wnow w - pt0 pr) |>) in
       let '(w, wp, _) := spawn w (proc0 <| pkd := KCombWorker |> <| pown := n |> <| pit := pit pr |> <| ptk := ptk pr |>
